@@ -5,6 +5,8 @@ import (
 	"os"
 	"path/filepath"
 	"sort"
+	"strings"
+	"sync"
 	"time"
 )
 
@@ -22,8 +24,40 @@ func selftest(bin string, long bool, workers int) int {
 		props = append(props, p)
 	}
 	sort.Strings(props)
+	if only := os.Getenv("SIM_SELFTEST_ONLY"); only != "" {
+		props = strings.Split(only, ",")
+	}
 	bad := 0
+	var mu sync.Mutex
+	var wg sync.WaitGroup
+	sem := make(chan struct{}, 5) // properties tested side by side (each is a handful of OS processes)
 	for _, p := range props {
+		wg.Add(1)
+		sem <- struct{}{}
+		go func(p string) {
+			defer wg.Done()
+			defer func() { <-sem }()
+			b, report := selftestOne(bin, p, n, outDir)
+			mu.Lock()
+			bad += b
+			fmt.Print(report)
+			mu.Unlock()
+		}(p)
+	}
+	wg.Wait()
+	if bad > 0 {
+		fmt.Printf("selftest FAILED (%d problems)\n", bad)
+		return 2
+	}
+	fmt.Println("selftest ok")
+	return 0
+}
+
+func selftestOne(bin, p string, n int, outDir string) (bad int, report string) {
+	var sb strings.Builder
+	printf := func(format string, a ...interface{}) { fmt.Fprintf(&sb, format, a...) }
+	defer func() { report = sb.String() }()
+	{
 		spec := Props[p]
 		badBefore := bad
 		digests := map[uint64]string{}
@@ -32,7 +66,7 @@ func selftest(bin string, long bool, workers int) int {
 				Out: filepath.Join(outDir, fmt.Sprintf("%s.g%d.jsonl", p, gmp))}
 			lines, _, killed := runWorker(bin, job, filepath.Join(outDir, fmt.Sprintf("%s.g%d.job.json", p, gmp)), 20*time.Minute, gmp)
 			if killed {
-				fmt.Printf("selftest %s: watchdog\n", p)
+				printf("selftest %s: watchdog\n", p)
 				bad++
 			}
 			got := 0
@@ -41,20 +75,20 @@ func selftest(bin string, long bool, workers int) int {
 					continue
 				}
 				if l.Result == nil {
-					fmt.Printf("selftest %s seed %d: panic %s\n", p, l.Seed, l.Panic)
+					printf("selftest %s seed %d: panic %s\n", p, l.Seed, l.Panic)
 					bad++
 					continue
 				}
 				got++
 				d := fmt.Sprintf("%s/%d", l.Result.LogDigest, len(l.Result.Violations))
 				if prev, ok := digests[l.Seed]; ok && prev != d {
-					fmt.Printf("selftest %s seed %d: NONDETERMINISTIC at GOMAXPROCS=%d (%s vs %s)\n", p, l.Seed, gmp, prev, d)
+					printf("selftest %s seed %d: NONDETERMINISTIC at GOMAXPROCS=%d (%s vs %s)\n", p, l.Seed, gmp, prev, d)
 					bad++
 				}
 				digests[l.Seed] = d
 			}
 			if got != n {
-				fmt.Printf("selftest %s GOMAXPROCS=%d: %d of %d runs completed\n", p, gmp, got, n)
+				printf("selftest %s GOMAXPROCS=%d: %d of %d runs completed\n", p, gmp, got, n)
 				bad++
 			}
 		}
@@ -71,7 +105,7 @@ func selftest(bin string, long bool, workers int) int {
 					if digests[l.Seed] == d {
 						ok = true
 					} else {
-						fmt.Printf("selftest %s seed %d: run alone in a fresh process it differs from the same seed run after %d others (%s vs %s)\n", p, l.Seed, n-1, d, digests[l.Seed])
+						printf("selftest %s seed %d: run alone in a fresh process it differs from the same seed run after %d others (%s vs %s)\n", p, l.Seed, n-1, d, digests[l.Seed])
 					}
 				}
 			}
@@ -80,13 +114,8 @@ func selftest(bin string, long bool, workers int) int {
 			}
 		}
 		if bad == badBefore {
-			fmt.Printf("selftest %s: %d seeds x 3 processes identical, isolation ok\n", p, len(digests))
+			printf("selftest %s: %d seeds x 3 processes identical, isolation ok\n", p, len(digests))
 		}
 	}
-	if bad > 0 {
-		fmt.Printf("selftest FAILED (%d problems)\n", bad)
-		return 2
-	}
-	fmt.Println("selftest ok")
-	return 0
+	return bad, ""
 }
